@@ -519,9 +519,12 @@ def judge_seeds(sc):
 
 
 def _exact_instance(rng, n):
-    """Gaussian-integer entries and small multiplicities: every intermediate is exactly representable."""
-    a = np.array([[complex(rng.randrange(-2, 3), rng.randrange(-2, 3)) for _ in range(n)] for _ in range(n)])
-    total = rng.randrange(1, 7)
+    """Gaussian-integer entries and small multiplicities: every intermediate is exactly representable
+    (entries in {-1,0,1}(+i{-1,0,1}) for larger multiplicities: |column sum| <= 2*total, products of <= total
+    factors stay far below 2^53)."""
+    total = rng.randrange(1, 9)  # <= 8: 256 terms of at most (2*8*sqrt 2)^8 * C(8,4) ~ 5e12 each stay below 2^53 in sum
+    lim = 3 if total <= 6 else 2
+    a = np.array([[complex(rng.randrange(-lim + 1, lim), rng.randrange(-lim + 1, lim)) for _ in range(n)] for _ in range(n)])
     rows = [0] * n
     cols = [0] * n
     for _ in range(total):
@@ -533,7 +536,7 @@ def _exact_instance(rng, n):
 def _random_instance(rng, n):
     g = spec._real_default_rng(rng.randrange(2**31))
     a = g.normal(size=(n, n)) + 1j * g.normal(size=(n, n))
-    total = rng.randrange(1, 8)
+    total = rng.randrange(1, 11)
     rows = [0] * n
     cols = [0] * n
     for _ in range(total):
@@ -630,8 +633,9 @@ def gen_partition(rng, tier):
     a, rows, cols = (_exact_instance if exact else _random_instance)(rng, n)
     idx_max = _idx_max(rows)
     hcs = sorted(set([0, 1, 2, 3, 16] + [rng.pick(HC_VALUES) for _ in range(2)] + [max(0, (idx_max + 3) // 4 + d) for d in (-1, 0, 1)]))
-    if tier != "quick":
-        hcs = sorted(set(hcs) | set(range(0, min(idx_max // 4 + 3, 40))))
+    # every answer of the concurrency query that changes the split: K = min(4*hc, idx_max) takes a new value for
+    # each hc up to idx_max/4 (non-power-of-two core counts - 7, 11, 13, 14, 22, 26, 28 - are where splits go wrong)
+    hcs = sorted(set(hcs) | set(range(0, min(idx_max // 4 + 3, 40 if tier == "quick" else 130))))
     teams = [(0, 0), (1, 0), (0, 1), (2, rng.randrange(2, 2**31)), (3, rng.randrange(2, 2**31)), (0, rng.randrange(2, 2**31))]
     limits = [rng.randrange(1, 5) for _ in range(rng.randrange(1, 5))]
     m = 1
@@ -712,7 +716,8 @@ def run_index(seed, idx, tier):
         return rec
 
     if idx % 4 == 3:
-        emit(gen_partition(rng, tier))
+        for _ in range(6 if tier == "quick" else 12):  # kernel evaluations cost microseconds
+            emit(gen_partition(rng, tier))
         return out
     subject = gen_subject(rng, tier)
     n_worlds = 3 if tier == "quick" else 5
